@@ -137,7 +137,10 @@ def _apply(f, x, case, name):
     buf = _Buffer(x) if (len(x) + (x[-1] if x else 0)) % 3 == 0 else bytearray(x)
     # an in-place transform works on buffers other code holds views of (a recv_into window, a reader
     # over the packet): every other call is made while a memoryview export of the buffer is alive
-    export = memoryview(buf) if (len(x) + (x[0] if x else 0)) % 2 else None
+    # (only for buffers of two or more bytes: CPython refuses even a no-op assignment to an EMPTY extended slice
+    # of an exported bytearray, which an implementation that works on alternate positions performs for
+    # lengths 0 and 1 - that is the interpreter's quirk, not a resize)
+    export = memoryview(buf) if len(x) >= 2 and (len(x) + x[0]) % 2 else None
     try:
         f(buf)
     except Exception as ex:  # the statement is total: every byte string is accepted
